@@ -850,9 +850,10 @@ class FMMetrics(Metrics):  # pylint: disable=too-many-instance-attributes
             raise FlamaException("Feature model is not defined.")
 
         name = "Features in constraints"
-        _features_in_constraints = list(
-            {f for ctc in self.model.get_constraints() for f in ctc.get_features()}
-        )
+        # each name once, in order of appearance (the order of a set changes from run to run)
+        _features_in_constraints = list(dict.fromkeys(
+            f for ctc in self.model.get_constraints() for f in ctc.get_features()
+        ))
         result = self.construct_result(
             name=name,
             doc=self.extra_constraint_representativeness.__doc__,
